@@ -400,7 +400,7 @@ func checkC06(ctx *RunCtx) int {
 	return finish(ctx, rep, &CheckSpec{
 		Extra: extra,
 		Prop:  "C06", Level: "exploration", EvalCounter: "hands", NonTrivSet: "nontrivial",
-		Rule:        "invalid-start grid (0/1 players, no dealer, zero/negative bankroll on each seat, empty/nil deck, for 2-9 seats) plus generated hands incl. never-stop-raising strategies; after every accepted operation the state must be one of the five wait events or GameClosed, follow the linear automaton ready->[ante]->[blinds]->(ready->started->closed | closed) per street ->GameClosed, strictly decrease the variant (stage, chips behind + live players, lap budget), have a result iff closed; the result lists every seat and takes from a folded player, whose chips were all covered by a player still in the hand, exactly those chips (also when the hand was resumed from its JSON state right before the settling Next()); an operation that is not the awaited one - through the Game or through a seat's Player handle (late per-seat PayAnte/PayBlinds) - must be refused; after close every operation on every seat (incl. per-seat PayAnte/PayBlinds) must fail and change nothing. Termination is restated as bounded progress on observed transitions (no finite run decides 'every path is finite'). Non-trivial = distinct completed hands. Independent hands are also played on eight goroutines in a -race build (no race report, no panic)." + engineWorkloadNote,
+		Rule:        "invalid-start grid (0/1 players, no dealer, zero/negative bankroll on each seat, empty/nil deck, for 2-9 seats) plus generated hands incl. never-stop-raising strategies; after every accepted operation the state must be one of the five wait events or GameClosed, follow the linear automaton ready->[ante]->[blinds]->(ready->started->closed | closed) per street ->GameClosed, strictly decrease the variant (stage, chips behind + live players, lap budget), have a result iff closed; the result lists every seat and takes from a folded player, whose chips were all covered by a player still in the hand, exactly those chips (also when the hand was resumed from its JSON state right before the settling Next()); an operation that is not the awaited one - through the Game or through a seat's Player handle (late per-seat PayAnte/PayBlinds) - must be refused; after close every operation on every seat (incl. per-seat PayAnte/PayBlinds) must fail and change nothing. Termination is restated as bounded progress on observed transitions (no finite run decides 'every path is finite'); a hand whose engine call does not come back within 45 s is replayed alone in a child process and reported only if the call does not return there either. One table in eight carries the dealer mark only (no sb/bb seat). Non-trivial = distinct completed hands. Independent hands are also played on eight goroutines in a -race build (no race report, no panic)." + engineWorkloadNote,
 		Required:    []string{"transitions_checked", "after_close_probes", "start_refusals_checked", "start_accepts_checked", "hands_closed", "race_build_hands_closed"},
 		Assumptions: []string{"liveness restated as bounded progress: the variant is checked on every observed transition; it is not a proof over unobserved states", "decks have at least hole*n+8 cards (the engine does not validate deck size beyond non-empty; configuration precondition)"},
 	})
